@@ -37,6 +37,13 @@ CHECKS = {
             "everything is dropped and drained to quiescence, and the connection is closed.",
             "frames are processed FIFO per direction; sequence numbers abstracted from the state key; finalizers run at the reference drop (gc disabled); class cache warmed for user classes",
             "E1+E3", "DESIGN.md#c10"),
+    "C15": ("model_checking",
+            "explicit-state BFS in virtual time over event histories replayed on a real Connection with a scripted reference-codec peer; every observation compared with a reference state machine's set of acceptable outcomes",
+            "All histories up to the depth bound over {schedule the reply (value/exception) after d, clock tick, add_callback, ready/error/expired, wait, value, serve one frame, "
+            "unrelated request with a slow handler, stray reply, set_expiry} for every creation mode (async_request, timed, sync_request) and timeout in {None, unset, -1, 0, 1, 2}; "
+            "oracle: final outcome, exact virtual time of every return/raise (later only while the waiter runs a handler), callbacks exactly once in order, late reply discarded.",
+            "virtual time (computation is instantaneous); ties and 'arrived before expiry but first looked at after it' accept both outcomes; negative timeouts: finality and callbacks only",
+            "E1+E3", "DESIGN.md#c15"),
 }
 
 NOT_APPLICABLE = {}
